@@ -100,6 +100,101 @@ def body_of(text, pf):
     return text[len(pf.fdf_header):len(text) - len(pf.fdf_footer)]
 
 
+def real_fills(ck, H, pf, rng, tier, label):
+    """real solved returns through the real PDFFiller with pdftk replaced by a recorder: forms filled, their order, and every FDF entry
+    decoded by an independent reader against the text the mapping assigns to the box ('' for a line the solution does not hold)"""
+    # ---------------- (b) real fills with a stand-in pdftk
+    n_sc = 12 if tier == 'quick' else 150
+    kinds = {}
+    for (year, forms, sseed, prof) in scenarios.scenario_stream(rng, 14 * n_sc):
+        if kinds.get('filled', 0) >= n_sc:
+            break
+        if rng.random() < 0.6 and not prof.get('overrides'):
+            forms = ['1040', 'nc_d-400']
+        advs = {}
+        pol = scenarios.Policy(sseed, dict(prof, year=year), prof.get('overrides'))
+        if prof.get('overrides'):
+            forms = list(prof.get('forms', forms))
+        orig_answer = pol.answer
+
+        def answer(inp, H_, pol=pol, orig=orig_answer):
+            if type(inp) is H_['inputs'].StringInput and 'initial' not in inp.base_name() and rng.random() < 0.5:
+                a = rng.choice(ADVERSARIAL).replace('\n', ' ').replace('\r', ' ')
+                return a
+            return orig(inp, H_)
+        pol.answer = answer
+        res = scenarios.run_scenario(H, year, forms, sseed, prof, policy=pol)
+        if res['exc'] is not None or not res['ok']:
+            kinds['unsolved'] = kinds.get('unsolved', 0) + 1
+            continue
+        solution = res['solver'].solution()
+        captured = []
+
+        def fake_run(cmd, check=True, **kw):
+            rec = {'cmd': list(cmd)}
+            if 'fill_form' in cmd:
+                with open(cmd[cmd.index('fill_form') + 1], newline='') as f:
+                    rec['fdf'] = f.read()
+            captured.append(rec)
+            return types.SimpleNamespace(returncode=0)
+        p = pf.PDFFiller(solution, H['forms'].available_forms[year], os.path.join(ck.build, 'out.pdf'))
+        old = pf.subprocess.run
+        pf.subprocess.run = fake_run
+        exc = None
+        try:
+            p.fill()
+        except Exception as e:  # noqa
+            exc = e
+        finally:
+            pf.subprocess.run = old
+        ck.count(('fill', year, sseed), nontrivial=len(captured) > 2)
+        if exc is not None:
+            kinds[type(exc).__name__] = kinds.get(type(exc).__name__, 0) + 1
+            if not isinstance(exc, (H['pdf_fields'].PDFValueTooLong, H['pdf_fields'].PDFInvalidChoiceValue)):
+                ck.violation(label + ':%d:fill-raised-%s' % (year, type(exc).__name__), 'ty%d fill raised %r' % (year, exc),
+                             {'kind': 'failing-input', 'year': year, 'forms': forms, 'seed': sseed, 'profile': prof}, found=True)
+            continue
+        kinds['filled'] = kinds.get('filled', 0) + 1
+        # which forms, in which order
+        want = [f for f in p.forms if f.needs_filing(p._values)]
+        want.sort(key=lambda f: (f.jurisdiction, f.sequence_no))
+        fills = [c for c in captured if 'fill_form' in c['cmd']]
+        got_names = [os.path.basename(c['cmd'][c['cmd'].index('output') + 1])[:-4] for c in fills]
+        probs = []
+        if got_names != [f.name() for f in want]:
+            probs.append('forms filled %s, expected %s' % (got_names, [f.name() for f in want]))
+        for f in p.forms:
+            if (f.pdf_file() is None or isinstance(f, H['form'].InputForm)) and f.name() in got_names:
+                probs.append('worksheet / input-only form %s was filled' % f.name())
+        if len(set(got_names)) != len(got_names):
+            probs.append('a form was filled twice')
+        cat = [c for c in captured if 'cat' in c['cmd']]
+        if len(cat) != 1 or [os.path.basename(x)[:-4] for x in cat[0]['cmd'][1:cat[0]['cmd'].index('cat')]] != got_names:
+            probs.append('the final concatenation does not list the filled forms in order')
+        # each FDF decodes to the mapped text
+        for c, f in zip(fills, want):
+            try:
+                dec = dict(parse_fdf(c['fdf']))
+            except Exception as e:  # noqa
+                probs.append('the FDF of %s is not parsable: %r' % (f.name(), e))
+                continue
+            for pdf_field in f.pdf_fields():
+                fname = pdf_field.field_name if '.' in pdf_field.field_name else '%s.%s' % (f.name(), pdf_field.field_name)
+                try:
+                    v = p._values[fname]
+                    want_s = pdf_field.value(v, p._field_map[fname])
+                except H['values'].UnmetDependency:
+                    want_s = ''
+                if dec.get(pdf_field.pdf_field_name) != want_s:
+                    probs.append('%s box %s decodes to %r, mapped text is %r' % (f.name(), pdf_field.pdf_field_name,
+                                                                                   dec.get(pdf_field.pdf_field_name), want_s))
+                    break
+        for pr in probs[:2]:
+            ck.violation(label + ':%d:%s' % (year, '-'.join(re.sub(r'[^a-z ]+', ' ', pr.lower()).split()[:4])), 'ty%d: %s' % (year, pr),
+                         {'kind': 'failing-input', 'year': year, 'forms': forms, 'seed': sseed, 'profile': prof, 'problems': probs[:4]}, found=True)
+    ck.cov['fill_outcomes'] = kinds
+
+
 def run(tier, seed):
     ck = Check('C19', tier, seed)
     rng = random.Random(seed + 19)
@@ -163,94 +258,7 @@ def run(tier, seed):
         if len(model_bodies) != len(bodies):
             dis += 1
     ck.oblige('correspondence:fdf-writer-model (%d data sets)' % len(datasets), ok and dis == 0, (out[-300:] if not ok else '%d disagreements' % dis))
-    # ---------------- (b) real fills with a stand-in pdftk
-    n_sc = 12 if tier == 'quick' else 150
-    kinds = {}
-    for (year, forms, sseed, prof) in scenarios.scenario_stream(rng, 14 * n_sc):
-        if kinds.get('filled', 0) >= n_sc:
-            break
-        if rng.random() < 0.6:
-            forms = ['1040', 'nc_d-400']
-        advs = {}
-        pol = scenarios.Policy(sseed, dict(prof, year=year))
-        orig_answer = pol.answer
-
-        def answer(inp, H_, pol=pol, orig=orig_answer):
-            if type(inp) is H_['inputs'].StringInput and 'initial' not in inp.base_name() and rng.random() < 0.5:
-                a = rng.choice(ADVERSARIAL).replace('\n', ' ').replace('\r', ' ')
-                return a
-            return orig(inp, H_)
-        pol.answer = answer
-        res = scenarios.run_scenario(H, year, forms, sseed, prof, policy=pol)
-        if res['exc'] is not None or not res['ok']:
-            kinds['unsolved'] = kinds.get('unsolved', 0) + 1
-            continue
-        solution = res['solver'].solution()
-        captured = []
-
-        def fake_run(cmd, check=True, **kw):
-            rec = {'cmd': list(cmd)}
-            if 'fill_form' in cmd:
-                with open(cmd[cmd.index('fill_form') + 1], newline='') as f:
-                    rec['fdf'] = f.read()
-            captured.append(rec)
-            return types.SimpleNamespace(returncode=0)
-        p = pf.PDFFiller(solution, H['forms'].available_forms[year], os.path.join(ck.build, 'out.pdf'))
-        old = pf.subprocess.run
-        pf.subprocess.run = fake_run
-        exc = None
-        try:
-            p.fill()
-        except Exception as e:  # noqa
-            exc = e
-        finally:
-            pf.subprocess.run = old
-        ck.count(('fill', year, sseed), nontrivial=len(captured) > 2)
-        if exc is not None:
-            kinds[type(exc).__name__] = kinds.get(type(exc).__name__, 0) + 1
-            if not isinstance(exc, (H['pdf_fields'].PDFValueTooLong, H['pdf_fields'].PDFInvalidChoiceValue)):
-                ck.violation('C19:%d:fill-raised-%s' % (year, type(exc).__name__), 'ty%d fill raised %r' % (year, exc),
-                             {'kind': 'failing-input', 'year': year, 'forms': forms, 'seed': sseed, 'profile': prof}, found=True)
-            continue
-        kinds['filled'] = kinds.get('filled', 0) + 1
-        # which forms, in which order
-        want = [f for f in p.forms if f.needs_filing(p._values)]
-        want.sort(key=lambda f: (f.jurisdiction, f.sequence_no))
-        fills = [c for c in captured if 'fill_form' in c['cmd']]
-        got_names = [os.path.basename(c['cmd'][c['cmd'].index('output') + 1])[:-4] for c in fills]
-        probs = []
-        if got_names != [f.name() for f in want]:
-            probs.append('forms filled %s, expected %s' % (got_names, [f.name() for f in want]))
-        for f in p.forms:
-            if (f.pdf_file() is None or isinstance(f, H['form'].InputForm)) and f.name() in got_names:
-                probs.append('worksheet / input-only form %s was filled' % f.name())
-        if len(set(got_names)) != len(got_names):
-            probs.append('a form was filled twice')
-        cat = [c for c in captured if 'cat' in c['cmd']]
-        if len(cat) != 1 or [os.path.basename(x)[:-4] for x in cat[0]['cmd'][1:cat[0]['cmd'].index('cat')]] != got_names:
-            probs.append('the final concatenation does not list the filled forms in order')
-        # each FDF decodes to the mapped text
-        for c, f in zip(fills, want):
-            try:
-                dec = dict(parse_fdf(c['fdf']))
-            except Exception as e:  # noqa
-                probs.append('the FDF of %s is not parsable: %r' % (f.name(), e))
-                continue
-            for pdf_field in f.pdf_fields():
-                fname = pdf_field.field_name if '.' in pdf_field.field_name else '%s.%s' % (f.name(), pdf_field.field_name)
-                try:
-                    v = p._values[fname]
-                    want_s = pdf_field.value(v, p._field_map[fname])
-                except H['values'].UnmetDependency:
-                    want_s = ''
-                if dec.get(pdf_field.pdf_field_name) != want_s:
-                    probs.append('%s box %s decodes to %r, mapped text is %r' % (f.name(), pdf_field.pdf_field_name,
-                                                                                   dec.get(pdf_field.pdf_field_name), want_s))
-                    break
-        for pr in probs[:2]:
-            ck.violation('C19:%d:%s' % (year, '-'.join(re.sub(r'[^a-z ]+', ' ', pr.lower()).split()[:4])), 'ty%d: %s' % (year, pr),
-                         {'kind': 'failing-input', 'year': year, 'forms': forms, 'seed': sseed, 'profile': prof, 'problems': probs[:4]}, found=True)
-    ck.cov['fill_outcomes'] = kinds
+    real_fills(ck, H, pf, rng, tier, 'C19')
     # ---------------- too long / bad choice on the real field classes
     PF = H['pdf_fields']
 
